@@ -178,6 +178,9 @@ func (g *Gen) randBatch(name string, cfg batchCfg) *BatchSpec {
 				if g.chance(0.1) {
 					vl = 0
 				}
+				if g.chance(0.12) {
+					vl = 120 + g.r.Intn(500) // lengths whose varints need two bytes
+				}
 				if cfg.bigVals && g.chance(0.15) {
 					vl = 66000 + g.r.Intn(5000)
 				}
@@ -1023,6 +1026,19 @@ func (g *Gen) genC07(n int) error {
 			}
 			g.emit("%s ops=%s", line, strList(ops))
 			g.st("rand")
+		}
+		// the usual reuse pattern: a miss, a hit with the objects handed back, then a miss without prealloc
+		for _, seg := range segs {
+			field := fields[g.r.Intn(len(fields))]
+			terms := sortedKeys(u.Fields[field])
+			if len(terms) == 0 {
+				continue
+			}
+			nd := g.ndocs[seg]
+			g.emit("q post %s %s %s ex=nil fl=111 pl=pm it=im ops=N,N", seg, field, hx(absentTerm()))
+			g.emit("q post %s %s %s ex=nil fl=111 pl=pm it=im ops=N", seg, field, hx([]byte(terms[g.r.Intn(len(terms))])))
+			g.emit("q post %s %s %s ex=nil fl=111 ops=%s", seg, field, hx(absentTerm()), g.nexts(nd+1))
+			g.emit("q post %s nosuchfield %s ex=nil fl=111 pl=pm it=im ops=%s", seg, hx([]byte(terms[0])), g.nexts(nd+1))
 		}
 		for _, sg := range segs[1:] {
 			g.emit("close %s", sg)
